@@ -101,7 +101,7 @@ theorem finalize_tail (htr : TransformOK) (p q : Sha) (pre tl : List UInt8)
   simp only [hpad, hq, hl, hok, hw, stateReads_ok, Bool.and_true]
   exact ⟨digestOf_compress _ _, inv_reset _ (by simp [hpre, lenBytes_length]) rfl⟩
 
-/-- no bound on the length here: `Inv` says that `count` holds the length exactly (so it is below 2^64) -/
+/-- no bound on the length: `Inv` says that `count` holds the length modulo 2^64, which determines the buffer position and the length field -/
 theorem finalize_spec_all (htr : TransformOK) (m : List UInt8) (p : Sha) (h : Inv m p) :
     (finalize p).1 = Spec.sha256 m ∧ Inv [] (finalize p).2 := by
   obtain ⟨full, tail, rest, hm, hfull, hbuf, hsz, hrest, hst, hcnt, hok⟩ := h
@@ -115,7 +115,7 @@ theorem finalize_spec_all (htr : TransformOK) (m : List UInt8) (p : Sha) (h : In
   have hst8 : p.state.length = 8 := by rw [hst]; exact hashBlocks_length _ _ rfl _ specH0_length
   have hfl : full.length = 64 * (full.length / 64) := by omega
   have hL : lenBytes 8 (p.count <<< 3) = Spec.be64 (8 * m.length) := by
-    rw [← hcnt]; exact lenBytes_eq_all _
+    rw [← be64_wrap, ← hcnt]; exact lenBytes_eq_all _
   have hset : Sha256.wr p.buffer (bufferPos p) 0x80 = (tail ++ [0x80]) ++ rest' := by rw [hcur, hbuf, wr_mid]
   unfold Spec.sha256
   rw [hm, pad_split, hashBlocks_append _ full hfl, ← hst, ← hm]
